@@ -308,3 +308,38 @@ func js(v any) string {
 	b, _ := json.Marshal(v)
 	return string(b)
 }
+
+var recReg = ev.New("C14", "regression-user-endpoint",
+	"fixed replay of the shrunk failing sequence found by api-sequence on the unfixed tree: anonymous TCP session on s1, a session of u2, then GET users/u1 and users/u2")
+
+// TestRegressionUserEndpoint freezes the shrunk failing case of the per-user endpoint defect
+// (C14/user-endpoint-returns-server-totals) as a plain test that does not depend on rapid.
+func TestRegressionUserEndpoint(t *testing.T) {
+	cms := newManagedServer(t, t.TempDir())
+	col := stats.Config{Enabled: true}.Collector()
+	mux := newAPI(map[string]ssm.Server{"s1": {CredentialManager: cms, StatsCollector: col}}, []string{"s1"})
+	col.CollectTCPSession("", 10, 20)
+	col.CollectTCPSession("u2", 3, 4)
+	want := map[string]vec{"u1": {}, "u2": {0, 3, 0, 4, 1, 0}}
+	for _, u := range []string{"u1", "u2"} {
+		code, body, _ := do(mux, http.MethodGet, apiBase+"/servers/s1/users/"+u, nil)
+		var au apiUser
+		if code != 200 || json.Unmarshal(body, &au) != nil {
+			t.Fatalf("SIG=C14/api-user-status GET users/%s: status %d body %q", u, code, body)
+		}
+		got, err := au.apiTraffic.vec()
+		if err != nil {
+			t.Fatalf("SIG=C14/api-user-body GET users/%s: %v body %q", u, err, body)
+		}
+		if got != want[u] {
+			if ev.IsKnown("C14", sigUserEndpoint) {
+				recReg.KnownHit(sigUserEndpoint)
+				recReg.Case("regression", true, "known-defect-reproduced")
+				return
+			}
+			t.Fatalf("SIG=%s after CollectTCPSession(\"\",10,20) and CollectTCPSession(\"u2\",3,4): GET users/%s shows %v, want %v (server totals are [0 13 0 24 2 0])\n body %s",
+				sigUserEndpoint, u, got, want[u], body)
+		}
+	}
+	recReg.Case("regression", true, "user-figures-correct")
+}
